@@ -2337,6 +2337,31 @@ default_object_invocation	(vbi_decoder *		vbi,
 	return TRUE;
 }
 
+/* Column 40 has no right neighbour: a copy of column 39 must not
+   claim to be double width or the right half of such a character. */
+static void
+column_41_size			(vbi_char *		ac)
+{
+	switch (ac->size) {
+	case VBI_DOUBLE_WIDTH:
+	case VBI_OVER_TOP:
+		ac->size = VBI_NORMAL_SIZE;
+		break;
+
+	case VBI_DOUBLE_SIZE:
+		ac->size = VBI_DOUBLE_HEIGHT;
+		break;
+
+	case VBI_DOUBLE_SIZE2:
+	case VBI_OVER_BOTTOM:
+		ac->size = VBI_DOUBLE_HEIGHT2;
+		break;
+
+	default:
+		break;
+	}
+}
+
 /**
  * @internal
  *
@@ -2363,6 +2388,7 @@ column_41			(vbi_page *		pg,
 
 	acp[40] = acp[39];
 	acp[40].unicode = 0x0020;
+	column_41_size (&acp[40]);
 
 	if (1 == pg->rows)
 		return;
@@ -2397,6 +2423,7 @@ column_41			(vbi_page *		pg,
 	if (!black0 && cont39) {
 		for (row = 1; row <= 24; ++row) {
 			acp[40] = acp[39];
+			column_41_size (&acp[40]);
 
 			if (!vbi_is_gfx (acp[39].unicode))
 				acp[40].unicode = 0x0020;
@@ -2423,6 +2450,7 @@ column_41			(vbi_page *		pg,
 
 	acp[40] = acp[39];
 	acp[40].unicode = 0x0020;
+	column_41_size (&acp[40]);
 }
 
 /**
